@@ -155,7 +155,9 @@ TCompiled ==
      /\ S' = (IF e.ok THEN SUpdate(S, e.bev) ELSE S)
      /\ devs' = Add(devs, (IF Isolated THEN CompileTags(I, HT, inp, r)
                            \* with shared stores only the primal side is unconditional: what is offered as incumbent must be feasible
-                           ELSE IF e.ok THEN Tag(e.besol.some /\ ~FeasibleSolution(I, e.besol.decs, e.bev), "C02 incumbent-candidate-infeasible") ELSE {}))
+                           ELSE IF e.ok THEN Tag(e.besol.some /\ ~FeasibleSolution(I, e.besol.decs, e.bev), "C02 incumbent-candidate-infeasible") ELSE {})
+                          \* a candidate that improves on the incumbent IS the solution the solver holds from now on (and returns if cut off next)
+                          \cup Tag(e.ok /\ e.bev > S.bestLb /\ e.besol.some /\ ~FeasibleSolution(I, e.besol.decs, e.bev), "C02 infeasible-solution-adopted"))
   /\ UNCHANGED <<I, HT, cfg, cur, compiledCur, inp, baseRet, prevRet, primalMax, held, skipOK, store, ever, pendW>>
 TCutset ==
   /\ Ev("cutset")
